@@ -26,6 +26,14 @@ theorem hashTy_out (O : Oracle) : ∀ (t : Ty) (orig : Option String) (v w : Val
   | .bool, _, v, w, _, h => by rw [adapt] at h; exact adaptLeaf_hashable O .bool v w h
   | .none, _, v, w, _, h => by rw [adapt] at h; exact adaptLeaf_hashable O .none v w h
   | .enum c ms, _, v, w, _, h => by rw [adapt] at h; exact adaptEnum_hashable c ms v w h
+  | .rnum b k, _, v, w, _, h => by
+    rw [adapt] at h
+    have := (adaptRnum_ok O b k v w h).1
+    cases b <;> cases w <;> simp [RBase.has] at this <;> simp [hashable]
+  | .reg k, _, v, w, _, h => by
+    rw [adapt] at h
+    obtain ⟨r, rfl⟩ := adaptReg_ok O k v w h
+    simp [hashable]
   | .union ts, orig, v, w, ht, h => by
     rw [adapt_union_eq] at h
     split at h
@@ -277,6 +285,11 @@ theorem shape_gen (O : Oracle) : ∀ (t : Ty) (orig : Option String) (v : Val),
     cases v <;> simp [conf, confL] at hc
     obtain ⟨rfl, hn⟩ := hc
     simp [adapt, adaptEnum, hn]
+  | .rnum _ _, _, _, _, hs => by simp [setSafe] at hs
+  | .reg k, _, v, hc, _ => by
+    cases v <;> simp [conf, confL] at hc
+    subst hc
+    simp [adapt, adaptReg_obj]
   | .union ts, orig, v, hc, hs => by
     rw [union_isOk]
     simp only [conf, confL, confLAny_iff] at hc
